@@ -47,3 +47,14 @@ package uniformdh
 //@   vars x Int, y Int, cx Bool, cy Bool
 //@   requires x >= 0 && y >= 0 && x % 2 == 0 && y % 2 == 0
 //@   ensures [same_secret] BEPAD(MODEXP(ite(cy, MODEXP(2, y, PMOD()), PMOD() - MODEXP(2, y, PMOD())), x, PMOD()), 192) == BEPAD(MODEXP(ite(cx, MODEXP(2, x, PMOD()), PMOD() - MODEXP(2, x, PMOD())), y, PMOD()), 192)
+
+//@ func GenerateKey(random) (priv, err)
+//@   serves C13 C10
+//@   requires random != nil && plainReader(random)
+//@   modifies random.*, blocked
+//@   ensures (err == nil) == (priv != nil)
+//@   ensures [C13:private_key_even] err == nil ==> priv.privateKey != nil && priv.privateKey.val >= 0 && priv.privateKey.val % 2 == 0
+//@   ensures [C13:public_key_is_g_x] err == nil ==> priv.PublicKey.publicKey != nil && priv.PublicKey.publicKey.val == MODEXP(2, priv.privateKey.val, PMOD())
+//@   ensures [C13:wire_is_X_or_p_minus_X] err == nil ==> len(priv.PublicKey.bytes) == 192 && priv.PublicKey.bytes != nil
+//@       && (seq(priv.PublicKey.bytes) == BEPAD(priv.PublicKey.publicKey.val, 192) || seq(priv.PublicKey.bytes) == BEPAD(PMOD() - priv.PublicKey.publicKey.val, 192))
+//@   ensures err == nil ==> fresh(priv) && fresh(priv.privateKey) && fresh(priv.PublicKey.publicKey) && fresh(priv.PublicKey.bytes)
